@@ -19,33 +19,49 @@ impl Emu {
             Emu::I(e) => e.apply(t),
         }
     }
+    /// `silencer_emulator_*_continue_with`: a new emulator object takes over the running filter under the
+    /// device's current silencer configuration
+    fn handover(self, cpu: &CPUEmulator) -> Emu {
+        match self {
+            Emu::P(e) => Emu::P(cpu.fpga().silencer_emulator_phase_continue_with(e)),
+            Emu::I(e) => Emu::I(cpu.fpga().silencer_emulator_intensity_continue_with(e)),
+        }
+    }
+}
+
+/// the value configured for the channel the filter under test does NOT use: always different from `value`
+fn other_value(value: u16) -> u16 {
+    (value ^ 0x55).max(1)
+}
+
+/// `tx` must be the same buffer for every send to one device (the message id has to advance)
+fn configure(cpu: &mut CPUEmulator, tx: &mut [autd3_driver::firmware::cpu::TxMessage], phase: bool, fixed: bool, value: u16) {
+    let g = create_geometry(1);
+    let v = NonZeroU16::new(value).unwrap();
+    let o = NonZeroU16::new(other_value(value)).unwrap();
+    let (intensity, ph) = if phase { (o, v) } else { (v, o) };
+    if fixed {
+        send(cpu, Silencer::new(FixedUpdateRate { intensity, phase: ph }), &g, tx).unwrap();
+    } else {
+        send(cpu, Silencer::new(FixedCompletionSteps { intensity, phase: ph, strict_mode: false }), &g, tx).unwrap();
+    }
 }
 
 struct Ctx {
     out: Out,
 }
 
-fn make(phase: bool, fixed: bool, value: u16, initial: u8) -> Emu {
-    let g = create_geometry(1);
+fn make(phase: bool, fixed: bool, value: u16, initial: u8) -> (CPUEmulator, Emu) {
+    let (cpu, _, emu) = make_tx(phase, fixed, value, initial);
+    (cpu, emu)
+}
+
+fn make_tx(phase: bool, fixed: bool, value: u16, initial: u8) -> (CPUEmulator, Vec<autd3_driver::firmware::cpu::TxMessage>, Emu) {
     let mut cpu = CPUEmulator::new(0, 249);
     let mut tx = new_tx(1);
-    let v = NonZeroU16::new(value).unwrap();
-    if fixed {
-        send(&mut cpu, Silencer::new(FixedUpdateRate { intensity: v, phase: v }), &g, &mut tx).unwrap();
-    } else {
-        send(
-            &mut cpu,
-            Silencer::new(FixedCompletionSteps { intensity: v, phase: v, strict_mode: false }),
-            &g,
-            &mut tx,
-        )
-        .unwrap();
-    }
-    if phase {
-        Emu::P(cpu.fpga().silencer_emulator_phase(initial))
-    } else {
-        Emu::I(cpu.fpga().silencer_emulator_intensity(initial))
-    }
+    configure(&mut cpu, &mut tx, phase, fixed, value);
+    let emu = if phase { Emu::P(cpu.fpga().silencer_emulator_phase(initial)) } else { Emu::I(cpu.fpga().silencer_emulator_intensity(initial)) };
+    (cpu, tx, emu)
 }
 
 fn circ(a: u8, b: u8) -> u32 {
@@ -56,8 +72,15 @@ fn circ(a: u8, b: u8) -> u32 {
 /// One history: `new`, then a list of (target, repetitions). Writes the op lines with the
 /// implementation's outputs, and runs the oracle on every segment of a completion-steps history.
 fn history(ctx: &mut Ctx, phase: bool, fixed: bool, value: u16, initial: u8, segs: &[(u8, u32)], tag: &str) {
+    history_ho(ctx, phase, fixed, value, initial, segs, tag, None)
+}
+
+/// `ho = Some(k)`: in every segment the running filter is handed over to a new emulator object
+/// (`continue_with`, same configuration) after `k` updates; this must be invisible, so the op lines are the same
+#[allow(clippy::too_many_arguments)]
+fn history_ho(ctx: &mut Ctx, phase: bool, fixed: bool, value: u16, initial: u8, segs: &[(u8, u32)], tag: &str, ho: Option<u32>) {
     let kind = if phase { "P" } else { "I" };
-    let mut emu = make(phase, fixed, value, initial);
+    let (cpu, mut emu) = make(phase, fixed, value, initial);
     let newline = format!("new {kind} {} {value} {initial}", fixed as u8);
     ctx.out.line(&newline, "ok");
     let mut replay = vec![newline];
@@ -65,7 +88,10 @@ fn history(ctx: &mut Ctx, phase: bool, fixed: bool, value: u16, initial: u8, seg
     let mut settled = true;
     for &(t, reps) in segs {
         let mut outs = Vec::with_capacity(reps as usize);
-        for _ in 0..reps {
+        for r in 0..reps {
+            if ho == Some(r) {
+                emu = emu.handover(&cpu);
+            }
             outs.push(emu.apply(t));
         }
         let op = format!("apply {}", std::iter::repeat(t.to_string()).take(reps as usize).collect::<Vec<_>>().join(" "));
@@ -170,6 +196,11 @@ pub fn run(args: &Args) {
                     segs.push((start, v as u32 + 1));
                 }
                 history(&mut ctx, phase, false, v, start, &segs, "pairs");
+                // the same with a hand-over in the middle of every transition (one offset per start value)
+                if v > 1 && (thorough || start % 4 == 0) {
+                    history_ho(&mut ctx, phase, false, v, start, &segs, "pairs-handover", Some(1 + (start as u32) % (v as u32 - 1).max(1)));
+                    ctx.out.count("handover-histories");
+                }
             }
             ctx.out.count_n("exhaustive-pairs(v,kind)", 1);
         }
@@ -189,6 +220,7 @@ pub fn run(args: &Args) {
             }
             for (a, b) in pairs {
                 history(&mut ctx, phase, false, v, a, &[(b, v as u32 + 1), (a, v as u32 + 2)], "large-v");
+                history_ho(&mut ctx, phase, false, v, a, &[(b, v as u32 + 1), (a, v as u32 + 2)], "large-v-handover", Some(rng.range(1, v as u64 - 1) as u32));
                 ctx.out.count("large-v-pairs");
             }
         }
@@ -233,8 +265,36 @@ pub fn run(args: &Args) {
         } as u16;
         let phase = rng.chance(1, 2);
         let segs: Vec<(u8, u32)> = (0..10).map(|_| (rng.below(256) as u8, rng.range(1, 300) as u32)).collect();
-        history(&mut ctx, phase, true, v, rng.below(256) as u8, &segs, "rate-mode");
+        if rng.chance(1, 3) {
+            history_ho(&mut ctx, phase, true, v, rng.below(256) as u8, &segs, "rate-mode-handover", Some(rng.range(1, 20) as u32));
+        } else {
+            history(&mut ctx, phase, true, v, rng.below(256) as u8, &segs, "rate-mode");
+        }
         ctx.out.count("rate-mode-histories");
+    }
+    // hand-over under a changed configuration (mode and/or value): correspondence only
+    for _ in 0..(if thorough { 400 } else { 60 }) {
+        let phase = rng.chance(1, 2);
+        let kind = if phase { "P" } else { "I" };
+        let (mut fixed, mut v) = (rng.chance(1, 3), rng.range(1, 300) as u16);
+        let initial = rng.below(256) as u8;
+        let (mut cpu, mut tx, mut emu) = make_tx(phase, fixed, v, initial);
+        ctx.out.line(&format!("new {kind} {} {v} {initial}", fixed as u8), "ok");
+        for _ in 0..6 {
+            let t = rng.below(256) as u8;
+            let reps = rng.range(1, v as u64 + 2) as usize;
+            let outs: Vec<String> = (0..reps).map(|_| emu.apply(t).to_string()).collect();
+            ctx.out.line(&format!("apply {}", vec![t.to_string(); reps].join(" ")), &outs.join(" "));
+            ctx.out.case(Some(fnv64(format!("reconf{kind}{fixed}{v}{t}{reps}").as_bytes())));
+            if rng.chance(1, 2) {
+                fixed = rng.chance(1, 3);
+                v = rng.range(1, 300) as u16;
+            }
+            configure(&mut cpu, &mut tx, phase, fixed, v);
+            emu = emu.handover(&cpu);
+            ctx.out.line(&format!("handover {} {v}", fixed as u8), "ok");
+        }
+        ctx.out.count("reconfigured-handover-histories");
     }
     ctx.out.sample("new P 0 40 0 / apply 85 x41 / apply 170 x41 / apply 0 x41 / apply 85 x41 / apply 170 x41 / apply 0 x41 …".into());
     ctx.out.sample("new I 0 7 3 / apply 0 x8 / apply 3 x8 / apply 1 x8 / apply 3 x8 / … (all 256 targets from start 3)".into());
